@@ -207,5 +207,77 @@ class UbSaveBody(FnSpec):
 
 def add_ublock(reg):
     reg.set_class_home("IH5UserBlockObj", "ih5/record.py", "IH5UserBlock")
-    specs = [UbCreateBody(), UbSaveBody()]
+    specs = [UbCreateBody(), UbSaveBody(), UbLoadBody()]
     return specs
+
+
+# ---- load ----------------------------------------------------------------------------------------------------------------------------------
+HEAD_OK = z3.Function("read_head_raw_finds_a_block", I, B)  # _read_head_raw(stream, n) is not None — its own contract (ReadHeadRaw): a function of the first n bytes
+HEAD_SIZE = z3.Function("block_size_claimed_in_the_first_n_bytes", I, I)
+HEAD_TEXT = z3.Function("block_text_in_the_first_n_bytes", I, S)
+
+
+class RStream(SVal):
+    def __init__(self, p):
+        self.p = p
+
+    def meth___enter__(self, cx):
+        return self
+
+    def meth___exit__(self, cx, *a):
+        return False
+
+
+class LoadCls(SVal):
+    def meth__read_head_raw(self, cx, stream, n):
+        from pyvc.values import SMaybe, STuple
+
+        nt = term(n)
+        cx.effect("read-head", stream, nt)
+        return SMaybe(z3.Not(HEAD_OK(nt)), STuple((SInt(HEAD_SIZE(nt)), SStr(HEAD_TEXT(nt)))))
+
+
+class ParsedUb(SVal):
+    def __init__(self, src):
+        self.src = src
+        self.attrs = {}
+
+    def py_setattr(self, cx, n, v):
+        self.attrs[n] = v
+
+
+class UbLoadBody(FnSpec):
+    file = "ih5/record.py"
+    qual = "IH5UserBlock.load"
+    props = ("C03", "C04")
+
+    def init(self):
+        from .common_io import path_term
+
+        self.bindings["open"] = lambda cx, p, mode="r": (cx.effect("open", path_term(p), mode), RStream(path_term(p)))[1]
+        self.bindings["json"] = type("J", (SVal,), {"meth_loads": lambda s, cx, t: ("json", t)})()
+        self.bindings["IH5UserBlock"] = type("U", (SVal,), {"meth_parse_obj": lambda s, cx, j: ParsedUb(j)})()
+
+    def setup(self, cx):
+        from .common_io import PathVal
+
+        return A(cls=LoadCls(), filename=PathVal(z3.String("container_file")))
+
+    def raises(self, cx, a):
+        big = HEAD_SIZE(512) > 512
+        return {"ValueError": z3.Not(HEAD_OK(512)), "AssertionError": z3.And(HEAD_OK(512), big, z3.Not(HEAD_OK(HEAD_SIZE(512))))}
+
+    def ensures(self, cx, a, res):
+        from .common_io import path_term
+
+        opens = [e for e in cx.fx if e[0] == "open"]
+        big = HEAD_SIZE(512) > 512
+        n = z3.If(big, HEAD_SIZE(512), z3.IntVal(512))
+        if not isinstance(res, ParsedUb) or not (isinstance(res.src, tuple) and res.src[0] == "json"):
+            return [("parsed-block", z3.BoolVal(False), "")]
+        txt = res.src[1]
+        size = res.attrs.get("_userblock_size")
+        return [
+            ("reads-only-that-file", z3.BoolVal(len(opens) == 1 and opens[0][2] == "rb") if not opens else z3.And(z3.BoolVal(len(opens) == 1 and opens[0][2] == "rb"), opens[0][1] == path_term(a.filename)), "the block is read from the named file, opened read-only"),
+            ("the-block-text-of-the-size-the-file-claims", z3.And(txt.t == HEAD_TEXT(n), z3.BoolVal(isinstance(size, SInt)) if not isinstance(size, SInt) else size.t == HEAD_SIZE(n)), "the block is parsed from the text found within the first 512 bytes, or — if the block itself claims a larger reserved size — from a second read of exactly that size; the claimed size is kept with the block"),
+        ]
